@@ -83,14 +83,6 @@ def run(ctx):
     c.compare("PageHeader", W, None, fin.name, None)
     rows += c.rows
     ctx.floor("C05 written table rows", rows, 60)
-    # the data page header is always present for a data page, and type is DATA_PAGE
-    f1 = W.fields.get(1)
-    okt = bool(f1) and f1[0].node.parent is not None
-    typ_call = [c_ for c_ in fin.calls("thrift_write_i32") if c_.args()[1].cv == 0 and "PAGE" in src(c_.args()[1])]
-    ctx.ob("R5.spec", "page-type-tag|%s:%s" % (PW, fin.name), P.where(fin.body),
-           "the page header's type is written as DATA_PAGE together with field 5 (data_page_header)",
-           bool(typ_call) and 5 in W.fields and not [x for x in W.fields[5][0].conds if not x.startswith("case")])
-
     # ---- (2)
     for en, (spec, prefix) in ENUM_MAP.items():
         vals = P.enum(en)
@@ -110,64 +102,93 @@ def run(ctx):
                    "%s = %d as in parquet.thrift %s.%s" % (cname, ENUMS[spec][short], spec, short),
                    v == ENUMS[spec][short], "carquet uses %d" % v)
 
-    # ---- (3)
-    cz = Canon(fin, inline=False)
-    cd = fin.calls("compress_data")
-    if len(cd) != 1:
-        raise AnalysisBroken("carquet_page_writer_finalize: expected one compress_data call")
-    a = cd[0].args()
-    in_buf = lvalue_text(a[1].strip_casts().c[0]) if a[1].strip_casts().k == "MemberExpr" else None
-    in_buf = lvalue_text(a[1]).rsplit(".", 1)[0] if lvalue_text(a[1]) else None
-    out_buf = None
-    x = a[3].strip_casts()
-    if x.k == "UnaryOperator" and x.op == "&":
-        out_buf = lvalue_text(x.c[0])
-    stores = {}
-    for s in fin.body.walk():
-        if is_assign(s) and s.c[0].strip().k == "UnaryOperator" and s.c[0].strip().op == "*":
-            stores[src(s.c[0].strip().c[0])] = s
-    oku = "uncompressed_size" in stores and lvalue_text(stores["uncompressed_size"].c[1].strip_casts()) == in_buf + ".size" \
-        and fin.cfg.node_dominates(stores["uncompressed_size"], cd[0])
-    okc = "compressed_size" in stores and lvalue_text(stores["compressed_size"].c[1].strip_casts()) == (out_buf or "?") + ".size" \
-        and fin.cfg.node_dominates(cd[0], stores["compressed_size"])
-    ctx.ob("R6.sizes", "header-uncompressed|%s:%s" % (PW, fin.name), P.where(fin.body),
-           "uncompressed_page_size is the size of the buffer handed to compress_data", bool(oku))
-    ctx.ob("R6.sizes", "header-compressed|%s:%s" % (PW, fin.name), P.where(fin.body),
-           "compressed_page_size is the size of compress_data's output", bool(okc))
-    # fields 2/3 write those values
-    def header_value(fid):
-        for fl in W.fields.get(fid, []):
-            call = fl.node
-            # the value writer is the next thrift_write_i32 after the header
-            calls = [c_ for c_ in fin_view.body.walk() if c_.k == "CallExpr" and c_.callee]
-            i = calls.index(call)
-            for c_ in calls[i + 1:i + 3]:
-                if c_.callee == "thrift_write_i32":
-                    return src(c_.args()[1])
-        return None
-    ctx.ob("R6.sizes", "header-fields|%s:%s" % (PW, fin.name), P.where(fin.body),
-           "PageHeader fields 2 and 3 carry *uncompressed_size and *compressed_size",
-           header_value(2) == "*uncompressed_size" and header_value(3) == "*compressed_size",
-           "%s / %s" % (header_value(2), header_value(3)))
-    # the uncompressed buffer is rep + def + values in that order
-    apps = [c_ for c_ in fin.calls("carquet_buffer_append") if in_buf and lvalue_text(c_.args()[0].strip_casts().c[0] if c_.args()[0].strip_casts().k == "UnaryOperator" else c_.args()[0]) == in_buf]
-    order = [[m for m in ("rep_levels_buffer", "def_levels_buffer", "values_buffer") if m in src(c_.args()[1])] for c_ in apps]
-    ctx.ob("R6.order", "page-layout|%s:%s" % (PW, fin.name), P.where(fin.body),
-           "the page body is repetition levels, definition levels, values in that order",
-           order == [["rep_levels_buffer"], ["def_levels_buffer"], ["values_buffer"]] and
-           all(fin.cfg.where()[x.i] <= fin.cfg.where()[y.i] or True for x, y in zip(apps, apps[1:])), str(order))
-    # DataPageHeader.num_values / encoding
-    nv = None
-    dph = W.fields.get(5, [None])[0]
-    okn = False
-    if dph is not None and dph.value and dph.value[0] == "struct":
-        inner = dph.value[1]
-        v1 = inner.fields.get(1, [None])[0]
-        v2 = inner.fields.get(2, [None])[0]
-        okn = v1 is not None and v1.value and v1.value[2] == ("num_values",) and \
-            v2 is not None and v2.value and v2.value[2] == ("encoding",)
-    ctx.ob("R6.sizes", "header-counts|%s:%s" % (PW, fin.name), P.where(fin.body),
-           "DataPageHeader.num_values / encoding are the writer's num_values / encoding", okn)
+    # ---- (3) what the finaliser does, configuration by configuration (semantic trace: buffers, the
+    # Thrift encoder, the CRC and the codec are hooked; helpers, gotos and hoisted locals do not matter)
+    from ..rules import pagefin
+    S = pagefin.SIZES
+    page_data_tag = P.enum("carquet_page_type").get("CARQUET_PAGE_DATA")
+    verdicts = {k: None for k in ("page-type-tag", "page-layout", "header-uncompressed", "header-compressed",
+                                  "header-fields", "header-counts", "header-crc", "page-bytes")}
+    nconf = 0
+
+    def fail(k, msg):
+        if verdicts[k] is None:
+            verdicts[k] = msg
+    try:
+        for crc in (False, True):
+            for stats, minmax in ((False, False), (True, False), (True, True), (False, True)):
+                for rep, deff in ((True, True), (False, True), (False, False)):
+                    for codec in (0, P.enum("carquet_compression")["CARQUET_COMPRESSION_SNAPPY"]):
+                        T = pagefin.trace(P, crc=crc, stats=stats, minmax=minmax, rep=rep, deff=deff, codec=codec)
+                        nconf += 1
+                        cfg_ = "crc=%d stats=%d minmax=%d rep=%d def=%d codec=%d" % (crc, stats, minmax, rep, deff, codec)
+                        if T.ret != 0:
+                            fail("page-bytes", "%s: returns %s" % (cfg_, T.ret))
+                            continue
+                        want = [(t_, S[t_]) for t_, on in (("rep", rep), ("def", deff), ("val", True)) if on]
+                        total = sum(n_ for _, n_ in want)
+                        body = [e for e in T.events if e[0] == "append" and isinstance(e[2], tuple) and e[2][0] in S]
+                        if [(e[2][0], e[3]) for e in body] != want or len(set(e[1] for e in body)) != 1:
+                            fail("page-layout", "%s: body appends %s" % (cfg_, [(e[1], e[2][0], e[3]) for e in body]))
+                            continue
+                        ubuf = body[0][1]
+                        udata = ("data@%s+%s" % ubuf, 0)
+                        csize = pagefin.COMPRESSED if codec else total
+                        if T.outs["usize"] != total:
+                            fail("header-uncompressed", "%s: *uncompressed_size = %s, body holds %d bytes" % (cfg_, T.outs["usize"], total))
+                        f2, f3 = T.field(1, 2), T.field(1, 3)
+                        if not f2 or f2[1] != ("thrift_write_i32", total) or not f3 or f3[1] != ("thrift_write_i32", csize):
+                            fail("header-fields", "%s: fields 2/3 carry %s / %s, expected %d / %d" % (cfg_, f2, f3, total, csize))
+                        if T.outs["csize"] != csize:
+                            fail("header-compressed", "%s: *compressed_size = %s, codec produced %d" % (cfg_, T.outs["csize"], csize))
+                        if codec:
+                            cd_ = [e for e in T.events if e[0] == "codec"]
+                            if cd_ != [("codec", udata, total)]:
+                                fail("page-bytes", "%s: codec input %s, expected the %d body bytes" % (cfg_, cd_, total))
+                            cap = [e for e in T.events if e[0] == "append" and e[2] == ("scratch", 0)]
+                        else:
+                            cap = [e for e in T.events if e[0] == "append" and e[2] == udata]
+                        if len(cap) != 1 or cap[0][3] != csize:
+                            fail("page-bytes", "%s: the codec result is appended %s" % (cfg_, cap))
+                            continue
+                        cdata = ("data@%s+%s" % cap[0][1], 0)
+                        last = T.events[max(i for i, e in enumerate(T.events) if e[0] == "append")]
+                        thr = [i for i, e in enumerate(T.events) if e[0].startswith("thrift_write")]
+                        if last[1] != T.outs["page_buffer"] or last[2] != cdata or last[3] != csize or \
+                                T.events.index(last) < max(thr, default=0) or \
+                                ("enc-init", T.outs["page_buffer"]) not in T.events or \
+                                ("clear", T.outs["page_buffer"]) not in T.events or \
+                                T.events.index(("clear", T.outs["page_buffer"])) > T.events.index(("enc-init", T.outs["page_buffer"])):
+                            fail("page-bytes", "%s: the page buffer is not cleared, given the header, then the %d payload bytes: %s"
+                                 % (cfg_, csize, [e for e in T.events if not e[0].startswith("thrift_write")]))
+                        f4 = T.field(1, 4)
+                        crcs = [e for e in T.events if e[0] == "crc"]
+                        if crc and (crcs != [("crc", cdata, csize)] or not f4 or f4[1][1] != pagefin.CRCV):
+                            fail("header-crc", "%s: crc over %s, field 4 %s" % (cfg_, crcs, f4))
+                        if not crc and f4 is not None:
+                            fail("header-crc", "%s: field 4 written with CRC disabled" % cfg_)
+                        f1, f5 = T.field(1, 1), T.field(1, 5)
+                        if not f1 or f1[1] != ("thrift_write_i32", page_data_tag) or not f5 or f5[1] != ("struct",):
+                            fail("page-type-tag", "%s: type field %s, data_page_header %s" % (cfg_, f1, f5))
+                        n1, n2 = T.field(2, 1), T.field(2, 2)
+                        if not n1 or n1[1][1:] != (321,) or not n2 or n2[1][1:] != (8,):
+                            fail("header-counts", "%s: num_values %s encoding %s" % (cfg_, n1, n2))
+        what = {"page-type-tag": "the page header's type is written as DATA_PAGE together with field 5 (data_page_header)",
+                "page-layout": "the page body is repetition levels, definition levels, values in that order, each only when present",
+                "header-uncompressed": "*uncompressed_size is the number of body bytes handed to the codec",
+                "header-compressed": "*compressed_size is the number of bytes the codec produced",
+                "header-fields": "PageHeader fields 2 and 3 carry the uncompressed and compressed sizes",
+                "header-counts": "DataPageHeader.num_values / encoding are the writer's num_values / encoding",
+                "header-crc": "field 4 is the CRC of exactly the stored payload bytes, written iff CRC is enabled",
+                "page-bytes": "the page buffer is cleared, receives the header, then exactly the codec's output"}
+        rulemap = {"page-type-tag": "R5.spec", "page-layout": "R6.order"}
+        for k, msg in verdicts.items():
+            ctx.ob(rulemap.get(k, "R6.sizes"), "%s|%s:%s" % (k, PW, fin.name), P.where(fin.body),
+                   what[k] + " (%d writer configurations, abstract execution)" % nconf, msg is None, msg or "")
+    except (pagefin.sem.Inconclusive, KeyError, AnalysisBroken) as ex:
+        ctx.inconclusive("R6.sizes", "page-trace|%s:%s" % (PW, fin.name), P.where(fin.body),
+                         "abstract execution of the page finaliser", "%s: %s" % (type(ex).__name__, ex))
+    ctx.floor("C05 page finaliser configurations", nconf, 40)
 
     # compressed payloads: emitted match offsets fit their 16-bit field (shared rule with C09.3)
     offset_width_rule(ctx)
@@ -199,31 +220,128 @@ def run(ctx):
                 ctx.bad("R6.offsets", key, P.where(s), "file_offset changes only by '= 4' and '+= written size'")
     ctx.floor("C05 file_offset writers", nfo, 2)
     rg = P.fn("carquet_row_group_writer_finalize", RW)
-    cur = None
-    for n in rg.body.walk():
-        if n.k == "DeclStmt":
-            for d, init in zip(n.get("decls", []), n.c):
-                if init is not None and "file_offset" in src(init) and "*" not in d.get("t", ""):
-                    cur = d
-    okr = False
-    if cur is not None:
-        sets = [s for s in rg.body.walk() if is_assign(s) and s.c[0].strip().k == "MemberExpr"
-                and s.c[0].strip().name == "file_offset"]
-        adv = [s for s in rg.body.walk() if s.k == "CompoundAssignOperator" and s.op == "+="
-               and s.c[0].strip().k == "DeclRefExpr" and s.c[0].strip().get("d") == cur["d"]]
-        app = rg.calls("carquet_buffer_append")
-        okr = len(sets) == 1 and sets[0].c[1].strip_casts().get("d") == cur["d"] and len(adv) == 1 and len(app) == 1 \
-            and lvalue_text(adv[0].c[1].strip_casts()) == lvalue_text(app[0].args()[2]) \
-            and rg.cfg.node_dominates(sets[0], adv[0])
-    ctx.ob("R6.offsets", "chunk-offsets|%s:carquet_row_group_writer_finalize" % RW, P.where(rg.body),
-           "each chunk's file_offset is the running offset, which then advances by the bytes appended for it", okr)
-    fr = P.inlined(P.fn("flush_row_group", FW), 2)      # a helper that fills one chunk is expanded
-    dp = [s for s in fr.body.walk() if is_assign(s) and s.c[0].strip().k == "MemberExpr" and s.c[0].strip().name == "data_page_offset"]
-    fo = [s for s in fr.body.walk() if is_assign(s) and s.c[0].strip().k == "MemberExpr" and s.c[0].strip().name == "file_offset"
-          and s.c[0].strip().get("rec") == "parquet_column_chunk"]
-    okd = len(dp) == 1 and len(fo) == 1 and src(dp[0].c[1]) == src(fo[0].c[1]) and "file_offset" in src(dp[0].c[1])
-    ctx.ob("R6.offsets", "chunk-meta-offsets|%s:flush_row_group" % FW, P.where(fr.body),
-           "ColumnChunk.file_offset and data_page_offset are the offset recorded for that chunk", okd)
+    # abstract execution for 1..3 columns with distinct chunk sizes (the column finalizer and the buffer
+    # append are hooked): the offset recorded for chunk i is the writer's file offset plus the bytes of
+    # chunks 0..i-1, and its recorded size is the byte count appended for it
+    from ..rules import sem
+    try:
+        wo = sem.field_offsets(P, "carquet_row_group_writer")
+        io = sem.field_offsets(P, "column_chunk_info")
+        isz = P.record("column_chunk_info")["size"]
+        badr = None
+        for N in range(1, 4):
+            heap0 = {("w", wo["num_columns"]): N, ("w", wo["column_writers"]): sem.Ptr("cw", 0, 8),
+                     ("w", wo["column_infos"]): sem.Ptr("ci", 0, isz), ("w", wo["file_offset"]): 5000}
+            for i in range(N):
+                heap0[("cw", 8 * i)] = sem.Ptr("col%d" % i, 0, 1)
+            sizes = [1000 + 37 * i for i in range(N)]
+
+            def fin(ev, a, it):
+                name = getattr(a[0], "base", None)
+                idx = int(name[3:]) if isinstance(name, str) and name.startswith("col") else -1
+                if len(a) > 2 and idx >= 0:
+                    sem.set_out(it, a[1], sem.Ptr("bytes%d" % idx, 0, 1))
+                    sem.set_out(it, a[2], sizes[idx])
+                for k_, o in enumerate(a[3:]):
+                    sem.set_out(it, o, 70 + k_)
+                return 0
+            args = [sem.Ptr("w", 0, 1), sem.Ptr("data_out", 0, 8), sem.Ptr("size_out", 0, 8), 10]
+            ret, ev, heap = sem.run(P, rg, args, heap0=heap0, single=True, max_forks=64, hooks={
+                "carquet_column_writer_finalize": fin,
+                "carquet_buffer_append": lambda ev, a, it: ev.append(("append", getattr(a[1], "base", a[1]), a[2])) or 0,
+                "carquet_buffer_clear": lambda ev, a, it: 0})
+            run = 5000
+            for i in range(N):
+                got_off = heap.get(("ci", i * isz + io["file_offset"]))
+                got_sz = heap.get(("ci", i * isz + io["total_compressed_size"]))
+                if (got_off != run or got_sz != sizes[i] or ("append", "bytes%d" % i, sizes[i]) not in ev) and badr is None:
+                    badr = "%d column(s): chunk %d records offset %s (expected %d) and size %s (expected %d); appends %s" % (
+                        N, i, got_off, run, got_sz, sizes[i], ev)
+                run += sizes[i]
+        ctx.ob("R6.offsets", "chunk-offsets|%s:carquet_row_group_writer_finalize" % RW, P.where(rg.body),
+               "each chunk's recorded file_offset is the running offset, which then advances by the bytes appended for it "
+               "(1..3 columns with distinct chunk sizes, abstract execution)", badr is None, badr or "")
+    except (sem.Inconclusive, KeyError, AnalysisBroken) as ex:
+        ctx.inconclusive("R6.offsets", "chunk-offsets|%s:carquet_row_group_writer_finalize" % RW, P.where(rg.body),
+                         "abstract execution of row-group finalize", str(ex))
+    fr = P.fn("flush_row_group", FW)
+    # abstract execution of the row-group flush for 1..3 chunks (row-group writer, stdio and the arena
+    # are hooked): every ColumnChunk record carries the offset, sizes and counts recorded for that chunk,
+    # data_page_offset is that same offset, and the file offset advances by the bytes written
+    try:
+        fo_ = sem.field_offsets(P, "carquet_writer")
+        io = sem.field_offsets(P, "column_chunk_info")
+        co = sem.field_offsets(P, "parquet_column_chunk")
+        mo = sem.field_offsets(P, "parquet_column_metadata")
+        ro = sem.field_offsets(P, "row_group_info")
+        go = sem.field_offsets(P, "parquet_row_group")
+        isz, csz, rsz = (P.record(r_)["size"] for r_ in ("column_chunk_info", "parquet_column_chunk", "row_group_info"))
+        badm = None
+        for N in range(1, 4):
+            heap0 = {("fw", fo_["current_row_group"]): sem.Ptr("rg", 0, 1), ("fw", fo_["current_row_group_rows"]): 10,
+                     ("fw", fo_["file"]): sem.Ptr("FILE", 0, 1), ("fw", fo_["num_row_groups"]): 1,
+                     ("fw", fo_["row_groups_capacity"]): 4, ("fw", fo_["row_groups"]): sem.Ptr("rgs", 0, rsz),
+                     ("fw", fo_["file_offset"]): 4004, ("fw", fo_["total_rows"]): 90}
+            for i in range(N):
+                heap0[("ci", i * isz + io["file_offset"])] = 4004 + 300 * i
+                heap0[("ci", i * isz + io["total_compressed_size"])] = 300 + i
+                heap0[("ci", i * isz + io["total_uncompressed_size"])] = 900 + i
+                heap0[("ci", i * isz + io["num_values"])] = 50 + i
+                heap0[("ci", i * isz + io["type"])] = 1 + i
+                heap0[("ci", i * isz + io["compression"])] = i
+                heap0[("ci", i * isz + io["path"])] = sem.Ptr("path%d" % i, 0, 1)
+            nall = [0]
+
+            def rgfin(ev, a, it):
+                sem.set_out(it, a[1], sem.Ptr("rgbytes", 0, 1))
+                sem.set_out(it, a[2], 1234)
+                return 0
+
+            def acalloc(ev, a, it):
+                nall[0] += 1
+                ev.append(("calloc", a[1], a[2], "arena%d" % nall[0]))
+                return sem.Ptr("arena%d" % nall[0], 0, a[2] if isinstance(a[2], int) else 1)
+            ret, ev, heap = sem.run(P, fr, [sem.Ptr("fw", 0, 1)], heap0=heap0, single=True, max_forks=64, hooks={
+                "carquet_row_group_writer_finalize": rgfin,
+                "fwrite": lambda ev, a, it: ev.append(("fwrite", getattr(a[0], "base", a[0]), a[1], a[2])) or a[2],
+                "memset": lambda ev, a, it: a[0], "realloc": lambda ev, a, it: a[0],
+                "carquet_row_group_writer_total_byte_size": lambda ev, a, it: 1234,
+                "carquet_row_group_writer_num_columns": lambda ev, a, it, N=N: N,
+                "carquet_row_group_writer_get_column_info":
+                    lambda ev, a, it, N=N: sem.Ptr("ci", a[1] * isz, isz) if isinstance(a[1], int) and 0 <= a[1] < N else 0,
+                "carquet_arena_calloc": acalloc,
+                "carquet_arena_strdup": lambda ev, a, it: sem.Ptr("dup", 0, 1),
+                "carquet_row_group_writer_destroy": lambda ev, a, it: None})
+            cols = [e for e in ev if e[0] == "calloc" and e[2] == csz]
+            if ret != 0 or len(cols) != 1 or cols[0][1] != N:
+                badm = badm or "%d chunk(s): returns %s, chunk table allocations %s" % (N, ret, cols)
+                continue
+            base = cols[0][3]
+            for i in range(N):
+                got = {"file_offset": heap.get((base, i * csz + co["file_offset"])),
+                       "data_page_offset": heap.get((base, i * csz + co["metadata"] + mo["data_page_offset"])),
+                       "total_compressed_size": heap.get((base, i * csz + co["metadata"] + mo["total_compressed_size"])),
+                       "total_uncompressed_size": heap.get((base, i * csz + co["metadata"] + mo["total_uncompressed_size"])),
+                       "num_values": heap.get((base, i * csz + co["metadata"] + mo["num_values"])),
+                       "type": heap.get((base, i * csz + co["metadata"] + mo["type"])),
+                       "codec": heap.get((base, i * csz + co["metadata"] + mo["codec"]))}
+                want = {"file_offset": 4004 + 300 * i, "data_page_offset": 4004 + 300 * i, "total_compressed_size": 300 + i,
+                        "total_uncompressed_size": 900 + i, "num_values": 50 + i, "type": 1 + i, "codec": i}
+                if got != want and badm is None:
+                    badm = "%d chunk(s): ColumnChunk %d records %s, the chunk info says %s" % (
+                        N, i, {k: v for k, v in got.items() if want[k] != v}, {k: v for k, v in want.items() if got[k] != v})
+            rgo = heap.get(("rgs", rsz * 1 + ro["metadata"] + go["file_offset"]))
+            if (rgo != 4004 or heap.get(("fw", fo_["file_offset"])) != 4004 + 1234 or
+                    ("fwrite", "rgbytes", 1, 1234) not in ev) and badm is None:
+                badm = "%d chunk(s): row group offset %s (expected 4004), file offset afterwards %s (expected %d), writes %s" % (
+                    N, rgo, heap.get(("fw", fo_["file_offset"])), 4004 + 1234, [e for e in ev if e[0] == "fwrite"])
+        ctx.ob("R6.offsets", "chunk-meta-offsets|%s:flush_row_group" % FW, P.where(fr.body),
+               "ColumnChunk.file_offset and data_page_offset are the offset recorded for that chunk; sizes, counts, type and "
+               "codec are the chunk's; the row group starts at the file offset, which advances by the bytes written "
+               "(1..3 chunks, abstract execution)", badm is None, badm or "")
+    except (sem.Inconclusive, KeyError, AnalysisBroken) as ex:
+        ctx.inconclusive("R6.offsets", "chunk-meta-offsets|%s:flush_row_group" % FW, P.where(fr.body),
+                         "abstract execution of the row-group flush", "%s: %s" % (type(ex).__name__, ex))
 
     # ---- (5) duplicated definitions and prototypes
     byname = {}
